@@ -418,7 +418,22 @@ int main(int argc, char** argv){
 		for(std::size_t r = 0; r != reps; ++r){
 			std::size_t n = 5 + rnd(40), bs = 1 + rnd(7);
 			printf("case %zu n=%zu bs=%zu\n", r, n, bs);
-			if(mode == "det") mode_det(n, bs);
+			// calling context: C20_NESTED=k evaluates the routines from the master thread of an ACTIVE parallel region of k threads
+			// (the library's own regions then run with an inner team of one thread, thread number 0, that executes every work item)
+			char const* nest = getenv("C20_NESTED");
+			if(nest && (mode == "det" || mode == "tol")){
+				int k = atoi(nest); std::string failure;
+				#pragma omp parallel num_threads(k)
+				{
+					#pragma omp master
+					{
+						try{ if(mode == "det") mode_det(n, bs); else mode_tol(n, bs); }
+						catch(std::exception const& ex){ failure = ex.what(); }
+					}
+				}
+				if(!failure.empty()) throw std::runtime_error(failure);
+			}
+			else if(mode == "det") mode_det(n, bs);
 			else if(mode == "tol") mode_tol(n, bs);
 			else if(mode == "snn"){ std::size_t big = 2 + rnd(3); mode_snn(big * (3 + rnd(6)), (3 + rnd(6)) * 2, 5 + rnd(40), 1 + rnd(3)); }
 			else if(mode == "f7") mode_f7(24 + rnd(16), 2 + rnd(3));
